@@ -356,7 +356,7 @@ package postgres
 //@ ensures err == nil ==> result != nil
 
 //@ func (*PostgresStoreWorker).searchSchedules
-//@ props C16 C17 C02 C20 C14 C10
+//@ props C16 C17 C02 C20 C14 C10 C01
 //@ records handler
 // every returned record is the row it was scanned from, column by column (C01, C20: what a sweep or a search reports is what is stored)
 //@ site loop 1 backedge assert scanned(rows, record, "SearchSchedules")
